@@ -246,3 +246,14 @@ def padto(X, n):
     if is_sym(X) or is_sym(n):
         return z3.Concat(X, blanks_term(n - z3.Length(X)))
     return list(X) + [(" ", ())] * max(0, n - len(X))
+
+
+def wcs_of(s, a, n):
+    """WCS of s[a:a+n] (SMT) with the additivity / unit lemmas needed to extend it by one character"""
+    t = T.WCS(z3.SubSeq(s, a, n))
+    one = T.WCS(z3.SubSeq(s, a + n, 1))
+    PENDING.append(z3.Implies(z3.And(a >= 0, n >= 0, a + n < z3.Length(s)),
+                              T.WCS(z3.SubSeq(s, a, n + 1)) == t + one))
+    PENDING.append(z3.Implies(n <= 0, t == 0))
+    PENDING.append(z3.Implies(z3.And(a + n >= 0, a + n < z3.Length(s)), z3.And(one >= 0, one <= 2)))   # wcwidth of one character (C11 quantifier)
+    return t
